@@ -118,7 +118,11 @@ def analyse(W, name, f, ctx, desc, path):
         what = f"statement {st.codes() or st.describe()[:40]} delivered to the writers"
     eff_fn = ev.site[0]
     tag = "delivery" if kind == "delivery" else (ev.data.get("field") or ev.data.get("method"))
-    key = f"{name}:{eff_fn}/{tag}:then:{path.raise_site[0]}:{cls}"
+    # what is left behind when the exception reaches the caller: the codes delivered and the slots that differ
+    from ..traceutil import Statement as _St
+    sent = [c for x in deliveries for c in (_St(x[1].data["args"][0], x[1]).codes() or ["?"])]
+    net = sorted(f"{a}.{b}" for a, b in changed)
+    key = f"{name}:{eff_fn}/{tag}:then:{path.raise_site[0]}:{cls}:sent={','.join(sent) or '-'}:net={','.join(net) or '-'}"
     later = [w for k, e, w in effects if e is not ev][:3]
     return [("viol", key,
              f"{entry} is rejected with {cls} (raised in {path.raise_site[0]}) after a lasting effect: {what} in {eff_fn}"
